@@ -9,7 +9,7 @@ class C09(SimCheck):
     ID = "C09"
     LEVEL = "fault_enumeration"
     QUICK_RUNS = 1200
-    THOROUGH_RUNS = 30000
+    THOROUGH_RUNS = 8000
     max_reports = 6
     minimise_budget_s = 40.0
     rule = (
